@@ -80,7 +80,9 @@ def run(ctx):
     # ---- 2. NDET
     nd_tbl = {r["key"]: r for r in ctx.table("ndet.json")["rows"]}
     srcs = ndet.sources(F)
-    R.floor("ndet_sources", len(srcs), 20)
+    # 31 on the pinned tree, 18 of them the `env::var` reads of Brc20ProgConfig::from_env, which a refactoring into
+    # `env_string_or(key, default)`-style helpers folds into three or four; the floor guards against losing the facts wholesale
+    R.floor("ndet_sources", len(srcs), 8)
     seen_keys = {}
     # A source is keyed by the top-level function it belongs to.  A *private helper* (extract-method) belongs to the functions
     # that call it: its body is read inside each caller's inlined view (so a clock value handed to the helper as an argument is
@@ -91,6 +93,7 @@ def run(ctx):
         r = F.fns.get(f.j.get("root")) if f.j.get("root") else None
         return r if r is not None else f
     hosts = {}                       # private helper name -> {host root name}
+    inl_of = {}                      # root name -> names of the bodies read in place in its view
     units, covered = [], set()
     # sources whose own top-level function is a reviewed row (a constructor such as LastBlockInfo::new) stay that function's
     def _raw_key(f_, c_):
@@ -109,6 +112,7 @@ def run(ctx):
             continue
         # methods of small record types are read in their callers too (`info.record_executed_tx(..)` is the caller's update)
         v = F.inlined(f, light=True)
+        inl_of.setdefault(_re.sub(r"(::\{closure#\d+\})+$", "", f.name), set()).update(v.j.get("inlined", []))
         for nm in v.j.get("inlined", []):
             hosts.setdefault(nm, set()).add(_re.sub(r"(::\{closure#\d+\})+$", "", f.name))
         for c in v.calls():
@@ -134,6 +138,12 @@ def run(ctx):
             foreign.setdefault(pv, set()).add(root_name)
     units = [(rn, f, c, pv) for (rn, f, c, pv) in units
              if not (pv in foreign and pv not in own and rn == _re.sub(r"(::\{closure#\d+\})+$", "", (F.fns.get(pv[0]).name if F.fns.get(pv[0]) is not None else "")))]
+    # ... and of several callers' views that see one source through each other (A reads B in place, B reads the helper in
+    # place) the innermost one owns it: the source belongs to B
+    seen_by = {}
+    for (rn, f, c, pv) in units:
+        seen_by.setdefault(pv, set()).add(rn)
+    units = [(rn, f, c, pv) for (rn, f, c, pv) in units if not any(o != rn and o in inl_of.get(rn, ()) for o in seen_by[pv])]
     counted = set()
     for (root_name, f, c, pv) in units:
         key = "%s|%s" % (root_name, (c.target_path or "").split("::")[-2] + "::" + (c.target_path or "").split("::")[-1])
@@ -204,7 +214,7 @@ def run(ctx):
     if ur is not None:
         ur = F.inlined(ur)
         hp = (ur.j.get("param_names") or ["block_number"])[0]
-        for net, want_at, want_before in (("Bitcoin", {True}, {False}), ("Signet", {True}, None), ("Regtest", {True}, {True})):
+        for net, want_at, want_before in (("Bitcoin", {True}, {False}), ("Signet", {True}, None), ("Regtest", {True}, None)):      # None: active from height 0, nothing below it
             got_at, cmps = boundary.outcomes(F, ur, hp, net, "at")
             got_bf, _c = boundary.outcomes(F, ur, hp, net, "before")
             R.ob(got_at == want_at and (want_before is None or got_bf == want_before), "DERIVE", ur.where(), "DERIVE|signed-tx-hash|boundary:%s" % net,
